@@ -56,6 +56,13 @@ DRIVERS = {
         "files": {f"c/web_{i}.xml": ("<cfg>\n" + "".join(f'<item a="1" n="{i}{n}"/>\n' for n in range(1, 4)) + "</cfg>\n").encode() for i in range(3)},
         "findings": {"c/web_0.xml": [2], "c/web_1.xml": [3], "c/web_2.xml": [2, 4]},
     },
+    # two DefectDojo result files (pages of one export), each naming another file: loaders that work on several files at once
+    # meet in the accumulated result set
+    "defectdojo-pages": {
+        "codemod": "defectdojo:python/avoid-insecure-deserialization",
+        "files": {f"svc/m{i}.py": b"import yaml\n\ndata = yaml.load(open('c.yml'))\n" for i in range(2)},
+        "defectdojo": [[f"svc/m{i}.py"] for i in range(2)],
+    },
     "four-tasks": {
         "codemod": "pixee:python/harden-pickle-load",
         "files": {"a/mod.py": PICKLE, "b/mod.py": PICKLE, "c/bad.py": BAD, "d/mod.py": PICKLE, "requirements.txt": b"requests\n"},
@@ -323,6 +330,13 @@ def run_once(driver, prefix, gran="coarse", workers=None):
     drive.write_tree(proj, spec["files"])
     resd.mkdir(parents=True, exist_ok=True)
     tool_map = {}
+    if spec.get("defectdojo"):
+        paths = []
+        for k, page in enumerate(spec["defectdojo"]):
+            doc = {"results": [{"id": 100 * (k + 1) + j, "title": "python.django.security.audit.avoid-insecure-deserialization.avoid-insecure-deserialization", "file_path": f, "line": 3} for j, f in enumerate(page)]}
+            (resd / f"page{k}.json").write_text(json.dumps(doc))
+            paths.append(str(resd / f"page{k}.json"))
+        tool_map = {"defectdojo": paths}
     if spec.get("sonar"):
         (resd / "h.json").write_bytes(_sonar(spec["sonar"]))
         tool_map = {"sonar": [str(resd / "h.json")]}
@@ -345,7 +359,16 @@ def run_once(driver, prefix, gran="coarse", workers=None):
                 _CALL_MODULES[m.__name__] = sched.install_call_events([m], _call_cb)
         s.trace_calls = {m.__file__ for m in mods}
     real_tpe, real_sem = bc.ThreadPoolExecutor, cs.semgrep_run
-    bc.ThreadPoolExecutor = sched.make_executor(s)
+    sched_tpe = sched.make_executor(s)
+    # every module of the code under test that holds a reference to the executor class gets the scheduled one: a pool created
+    # anywhere (result-file loaders, detectors ...) is explored like the per-file pool
+    import sys as _sys
+
+    patched = []
+    for name, mod in list(_sys.modules.items()):
+        if mod is not None and name.startswith(("codemodder", "core_codemods")) and getattr(mod, "ThreadPoolExecutor", None) is real_tpe:
+            mod.ThreadPoolExecutor = sched_tpe
+            patched.append(mod)
     cs.semgrep_run = st["memo_run"]
     _CUR[0] = s
     try:
@@ -357,7 +380,8 @@ def run_once(driver, prefix, gran="coarse", workers=None):
         results = context.compile_results([codemod])
     finally:
         _CUR[0] = None
-        bc.ThreadPoolExecutor = real_tpe
+        for mod in patched:
+            mod.ThreadPoolExecutor = real_tpe
         cs.semgrep_run = real_sem
     tree = drive.read_tree(proj)
     rep = json.loads(json.dumps([json.loads(r.model_dump_json(exclude_none=True)) for r in results]).replace(str(root), "<S>"))
